@@ -132,6 +132,8 @@ func c20File(path, pkg, syntaxName string) *descriptorpb.FileDescriptorProto {
 		c20Field("rm", 4, descriptorpb.FieldDescriptorProto_TYPE_MESSAGE, rep, tname),
 	}
 	c20MapField(t, tname, "mp", 5, descriptorpb.FieldDescriptorProto_TYPE_STRING, descriptorpb.FieldDescriptorProto_TYPE_INT32, "")
+	// map<string, T> mm = 6: message values reachable through a map (Get, Items, iteration)
+	c20MapField(t, tname, "mm", 6, descriptorpb.FieldDescriptorProto_TYPE_STRING, descriptorpb.FieldDescriptorProto_TYPE_MESSAGE, tname)
 
 	kname := "." + pkg + ".K"
 	k := &descriptorpb.DescriptorProto{Name: proto.String("K")}
